@@ -334,6 +334,32 @@ def run_case(case, replay=None):
             v.update(rec.fields())
             return v
 
+    # ---------------- the repository's own reduction (what every parallel trainer runs) ----
+    repo_red = None
+    if not any(_is_lazy(st) for st in pool):
+        try:
+            from bob.learn.em import gmm as _gmm_mod
+            _ms = _gmm_mod.m_step
+        except Exception:
+            _ms = None
+            rec.probe("repo_reduction_unavailable")
+        if _ms is not None:
+            import copy as _copy
+            mm = _copy.deepcopy(m)
+            mm.update_means = mm.update_variances = mm.update_weights = True
+            try:
+                with np.errstate(all="ignore"):
+                    out_m, avg = _ms([_copy.deepcopy(st) for st in pool], mm)
+                repo_red = (np.array(out_m.weights, float), np.array(out_m.means, float),
+                            np.array(out_m.variances, float), float(avg))
+            except HarnessError:
+                raise
+            except Exception as e:
+                return Result.violation("repo-reduction-raises", {"exception": repr(e)[:300],
+                                                                  "blocks": len(pool)}, **rec.fields())
+            rec.probe("repo_reduction_checked")
+            rec.probe("repo_reduction_odd_block_count", nb % 2 == 1 and nb > 1)
+
     # ---------------- reduce: seeded merge schedule ----------------
     rowc = list(rows)
     for step_no, step in enumerate(case["merge"]):
@@ -417,6 +443,25 @@ def run_case(case, replay=None):
         return Result.violation("split-and-add-vs-whole",
                                 {"field": bad[0], "err": bad[1], "bound": bad[2], "blocks": blocks,
                                  "merge": case["merge"]}, **rec.fields())
+    if repo_red is not None:
+        import copy as _copy
+        from bob.learn.em import gmm as _gmm_mod
+        mm = _copy.deepcopy(m)
+        mm.update_means = mm.update_variances = mm.update_weights = True
+        with np.errstate(all="ignore"):
+            ref_m, ref_avg = _gmm_mod.m_step([_copy.deepcopy(whole_st)], mm)
+        pairs = (("weights", repo_red[0], np.array(ref_m.weights, float), 1.0),
+                 ("means", repo_red[1], np.array(ref_m.means, float), s),
+                 ("variances", repo_red[2], np.array(ref_m.variances, float), s * s),
+                 ("average_log_likelihood", np.array(repo_red[3]), np.array(float(ref_avg)),
+                  max(abs(float(ref_avg)), 1.0)))
+        for name, a, b, sc in pairs:
+            from ..util import rel_diff as _rd
+            dv = _rd(a, b, scale=sc)
+            if dv > 1e-8:
+                return Result.violation("trainer-reduction-vs-whole",
+                                        {"observable": name, "rel_diff": dv, "n_blocks": nb,
+                                         "rows_per_block": rows}, **rec.fields())
     nn = merged[1]
     if (nn < -1e-12).any() or abs(float(nn.sum()) - n_rows) > 1e-9 * n_rows:
         return Result.violation("responsibilities-do-not-sum-to-count",
